@@ -304,6 +304,7 @@ class MetropolisChain(MarkovChain):
         for p, v in zip(self.params, proposal):
             p.add_sample(v)
 
+        self.probs.append(pval)
         self.chain_length += 1
 
     def get_last(self):
